@@ -1,7 +1,6 @@
 #!/bin/bash
 # tools/integrate.sh C02 : merge branch wC02 of the verif worktree into /verif main, bring over its
 # claims / known-findings files, cherry-pick its "fix:" commits into /repo, rebuild and run the check.
-set -e
 id=$1
 W=/tmp/w/$id
 cd /verif
@@ -14,7 +13,16 @@ git merge --no-edit w$id 2>&1 | tail -3
 [ -f known_findings.d/$id.json ] || { [ -f $W/verif/known_findings.d/$id.json ] && cp $W/verif/known_findings.d/$id.json known_findings.d/; }
 # repo fixes
 for c in $(git -C /repo log --reverse --format=%H main..w$id); do
-  echo "cherry-pick $(git -C /repo log -1 --format='%h %s' $c)"
-  git -C /repo cherry-pick $c >/dev/null
+  subj=$(git -C /repo log -1 --format='%s' $c)
+  if git -C /repo log --format=%s main | grep -qxF "$subj"; then echo "skip (same subject already on main): $subj"; continue; fi
+  if git -C /repo cherry-pick $c >/dev/null 2>&1; then
+    echo "cherry-picked: $(git -C /repo log -1 --format='%h %s')"
+  else
+    if git -C /repo diff --cached --quiet && [ -z "$(git -C /repo diff --name-only --diff-filter=U)" ]; then
+      git -C /repo cherry-pick --skip >/dev/null 2>&1; echo "skip (empty, already applied): $subj"
+    else
+      git -C /repo cherry-pick --abort; echo "CONFLICT (not applied): $c $subj"
+    fi
+  fi
 done
 python3 tools/mkmanifest.py
